@@ -149,4 +149,85 @@ theorem flatten_idempotent (bs : List FBatch) (p : List FBatch) (hp : p.Perm (fl
   have := foldl_absorb_of_conf p [] (by simpa using hc)
   simpa using this
 
+/-! ## entries of a group in trace order -/
+
+theorem insertByTrace_perm (e : FEntry) : ∀ (l : List FEntry), (insertByTrace e l).Perm (e :: l)
+  | [] => List.Perm.refl _
+  | x :: xs => by
+    unfold insertByTrace
+    split
+    · exact List.Perm.refl _
+    · exact ((insertByTrace_perm e xs).cons x).trans (List.Perm.swap e x xs)
+
+theorem sortByTrace_perm : ∀ (l : List FEntry), (sortByTrace l).Perm l
+  | [] => List.Perm.refl _
+  | e :: es => (insertByTrace_perm e (sortByTrace es)).trans ((sortByTrace_perm es).cons e)
+
+def Ascending (l : List FEntry) : Prop := l.Pairwise (fun a b => a.trace ≤ b.trace)
+
+theorem insertByTrace_sorted (e : FEntry) : ∀ (l : List FEntry), Ascending l → Ascending (insertByTrace e l)
+  | [], _ => by simp [insertByTrace, Ascending]
+  | x :: xs, h => by
+    unfold insertByTrace
+    unfold Ascending at h ⊢
+    rw [List.pairwise_cons] at h
+    split
+    · rename_i hle
+      rw [List.pairwise_cons]
+      refine ⟨?_, List.pairwise_cons.2 h⟩
+      intro y hy
+      rcases List.mem_cons.1 hy with rfl | hy
+      · exact hle
+      · exact Nat.le_trans hle (h.1 y hy)
+    · rename_i hle
+      rw [List.pairwise_cons]
+      refine ⟨?_, insertByTrace_sorted e xs h.2⟩
+      intro y hy
+      rcases List.mem_cons.1 ((insertByTrace_perm e xs).mem_iff.1 hy) with rfl | hy
+      · omega
+      · exact h.1 y hy
+
+theorem sortByTrace_sorted : ∀ (l : List FEntry), Ascending (sortByTrace l)
+  | [] => by simp [sortByTrace, Ascending]
+  | e :: es => insertByTrace_sorted e _ (sortByTrace_sorted es)
+
+/-- with distinct trace numbers the order is strict -/
+theorem sortByTrace_strict (l : List FEntry) (h : (l.map (·.trace)).Nodup) :
+    (sortByTrace l).Pairwise (fun a b => a.trace < b.trace) := by
+  have hs := sortByTrace_sorted l
+  have hn : ((sortByTrace l).map (·.trace)).Nodup := ((sortByTrace_perm l).map _).nodup_iff.2 h
+  unfold Ascending at hs
+  generalize sortByTrace l = s at hs hn
+  induction s with
+  | nil => exact List.Pairwise.nil
+  | cons x xs ih =>
+    rw [List.pairwise_cons] at hs ⊢
+    simp only [List.map_cons, List.nodup_cons] at hn
+    refine ⟨?_, ih hs.2 hn.2⟩
+    intro y hy
+    have := hs.1 y hy
+    have hne : x.trace ≠ y.trace := by
+      intro he
+      exact hn.1 (List.mem_map.2 ⟨y, hy, he.symm⟩)
+    omega
+
+theorem sortByTrace_of_sorted : ∀ (l : List FEntry), Ascending l → sortByTrace l = l
+  | [], _ => rfl
+  | e :: es, h => by
+    unfold Ascending at h
+    rw [List.pairwise_cons] at h
+    simp only [sortByTrace, sortByTrace_of_sorted es h.2]
+    cases es with
+    | nil => rfl
+    | cons x xs => simp [insertByTrace, h.1 x (by simp)]
+
+theorem allEntries_flattenSorted (bs : List FBatch) : (allEntries (flattenSorted bs)).Perm (allEntries (flatten bs)) := by
+  unfold flattenSorted allEntries
+  generalize flatten bs = gs
+  induction gs with
+  | nil => exact List.Perm.refl _
+  | cons g gs ih =>
+    simp only [List.map_cons, List.flatMap_cons]
+    exact List.Perm.append (sortByTrace_perm g.entries) ih
+
 end Ach.Flatten
